@@ -7,7 +7,7 @@
    spec/Forest.v: forest n = the perfect trees of the MMR with n leafs, laid out in post-order; f_locate n x =
    (peak index, tree, nodeinfo) of node x; spec_* = the structural answers. *)
 From Coq Require Import ZArith Bool List.
-From TF Require Import Word MmrIndexGen MmrIndex Forest MmrIndexProofs MmrIndexLoops MmrIndexMain.
+From TF Require Import Word MmrIndexGen MmrIndex Forest MmrIndexProofs MmrIndexLoops MmrIndexMain MmrIndexGrow.
 Import ListNotations.
 Open Scope Z_scope.
 
@@ -157,3 +157,32 @@ Theorem C16_node_indices_added_by_append : forall n, 0 <= n < 2 ^ 63 ->
 Proof. exact added_by_append_correct. Qed.
 Print Assumptions C16_node_indices_added_by_append.
 Example C16_added_ex : spec_added_by_append 7 = [12; 13; 14; 15]. Proof. reflexivity. Qed.
+
+(* ------------------------------------------------------------------ authentication paths *)
+(* start and target both nodes of the MMR: the siblings on the way up, or None if target is not an ancestor *)
+Theorem C16_authentication_path : forall n start target, 0 <= n < 2 ^ 63 ->
+  1 <= start <= spec_node_count n -> 1 <= target <= spec_node_count n ->
+  mm_get_authentication_path_node_indices start target (spec_node_count n) = spec_auth_path n start target.
+Proof. exact main_auth_path. Qed.
+Print Assumptions C16_authentication_path.
+Example C16_auth_path_ex : spec_auth_path 11 1 15 = Some (Some [2; 6; 14]) /\ spec_auth_path 11 5 18 = Some None.
+Proof. split; reflexivity. Qed.
+
+(* ------------------------------------------------------------------ the specification itself *)
+(* the forest of the binary decomposition is the forest one gets by appending n leafs one at a time *)
+Theorem C16_forest_is_grown : forall n : nat, Z.of_nat n < 2 ^ 64 -> grow n = rev (forest (Z.of_nat n)).
+Proof. exact grow_is_forest. Qed.
+Print Assumptions C16_forest_is_grown.
+
+(* the descent used by the specification agrees with the plain traversal of the explicit (materialised) tree,
+   whose nodes are numbered o+1 .. o + tsize h in post-order *)
+Theorem C16_descent_is_traversal : forall h o l x r isr par sib ni,
+  t_locate h o l x r isr par sib = Some ni -> In (x, ni) (m_infos (materialise h o l) r isr par sib).
+Proof. exact t_locate_in_materialised. Qed.
+Print Assumptions C16_descent_is_traversal.
+
+Theorem C16_post_order_numbering : forall h o l,
+  m_postorder (materialise h o l) = upfrom (Z.to_nat (tsize h)) o.
+Proof. exact m_postorder_materialise. Qed.
+Print Assumptions C16_post_order_numbering.
+Example C16_post_order_ex : m_postorder (materialise 2 7 4) = [8; 9; 10; 11; 12; 13; 14]. Proof. reflexivity. Qed.
